@@ -653,9 +653,27 @@ func genAdaptive(r *Rand, st *genStats, copyHeavy bool) *prog {
 				p.do("root:d")
 			}
 		}
+		if r.Intn(60) == 0 {
+			p.reopen()
+		}
 	}
 	p.finish(hasSrc, copyHeavy)
 	return p
+}
+
+// reopen: Marshal, decode, keep building in the decoded message (whose buffers have cap = len)
+func (p *prog) reopen() {
+	if p.do("reopen:"+[]string{"u", "d"}[p.r.Intn(2)]) != "ok" {
+		return
+	}
+	p.st.reopens++
+	for i := range p.infos {
+		if p.infos[i].loc == 'd' {
+			p.infos[i].kind = -1
+		}
+	}
+	p.do("dump:d")
+	p.do("root:d")
 }
 
 // finish: independence (mutate both sides, re-read both) and the final observations
